@@ -124,6 +124,17 @@ Definition frame_eqb (a b : frame) : bool :=
   | _, _ => false
   end.
 
+(* The hook-call log is compared up to the SPELLING of the period argument: a negative t and the position it denotes are the
+   same period (whether BaseModel.solve_t hands its hooks t as passed or normalised is nothing the property constrains). *)
+Definition norm_event (n : nat) (e : event) : event :=
+  match e with
+  | EvBefore t => EvBefore (Z.of_nat (pos_of n t))
+  | EvPass t k => EvPass (Z.of_nat (pos_of n t)) k
+  | EvAfter t k => EvAfter (Z.of_nat (pos_of n t)) k
+  end.
+Definition norm_log (s : fstate) : fstate := with_vals float s (vals_of s) (map (norm_event (length (status s))) (log s)).
+Definition state_eqb17 (a b : fstate) : bool := state_eqb (norm_log a) (norm_log b).
+
 (* what the implementation showed after one call: traced instance (state, traces, result), untraced twin *)
 (* compact form of the observed frame: FSame = "the frame is exactly the labels x names table of the observed Trace
    (the empty frame for an empty Trace)" *)
@@ -157,9 +168,9 @@ Fixpoint run_check (sc : scripts) (cfg : tcfg) (kind : nat) (span : list Z) (d :
   | c :: cs', x :: xs' =>
       let '((s', tr'), r) := f_call sc cfg kind span d c s tr in
       let '(u', ru) := f_plain_call sc kind span d c u in
-      state_eqb s' (x_state x) && list_eqb trace_eqb tr' (x_traces x) && cres_eqb r (x_res x)
+      state_eqb17 s' (x_state x) && list_eqb trace_eqb tr' (x_traces x) && cres_eqb r (x_res x)
       && frames_ok tr' (x_frames x)
-      && state_eqb u' (x_twin x) && cres_eqb ru (x_twin_res x)
+      && state_eqb17 u' (x_twin x) && cres_eqb ru (x_twin_res x)
       && run_check sc cfg kind span d cs' xs' s' tr' u'
   | _, _ => false
   end.
